@@ -27,7 +27,7 @@ RULE = ("one run = one history: project with 1-5 managed sites (==, <=, >=, in, 
         "slack / wrong / subset / superset, hand-styled or tool-styled) and 1-4 sessions, each with a random approved subset of "
         "{create, fix, trim, update}; between sessions the observed data may change; distinct = (kind, src-class, pending set, approved set) "
         "tuples over judged sites; non-trivial = at least one site judged against the model")
-RULE += " Dimensions added while testing against seeded changes: twin files, review-answer sessions, xfail tests, access-only keys, mutation tests; recorded values of another class with the same fields."
+RULE += " Dimensions added while testing against seeded changes: twin files, review-answer sessions, xfail tests, access-only keys, mutation tests; recorded values of another class with the same fields; a same-size fix followed by sessions that approve nothing / fix again."
 ASSUMPTIONS = [
     "bound values come from one totally ordered family per site; values are copyable",
     "sites on which a comparison raised, or that contradict themselves, are exempt (counted as discards)",
